@@ -15,19 +15,26 @@ import (
 	"strings"
 	"time"
 
+	"github.com/janelia-flyem/dvid/datatype/common/proto"
+	pb "google.golang.org/protobuf/proto"
+
 	"verif/harness/dvh"
 	"verif/harness/lib"
 )
 
 type wop struct {
-	Op      string `json:"op"` // newrepo newdata commit newversion branch merge deldata delrepo put del
-	Repo    int    `json:"repo,omitempty"`
-	V       int    `json:"v,omitempty"`
-	Parents []int  `json:"parents,omitempty"`
-	Branch  string `json:"branch,omitempty"`
-	Name    string `json:"name,omitempty"`
-	Key     string `json:"key,omitempty"`
-	Val     string `json:"val,omitempty"`
+	Op   string `json:"op"`             // newrepo newdata commit newversion branch merge deldata delrepo put del mappings
+	Type string `json:"type,omitempty"` // newdata: datatype ("" = keyvalue)
+	// mappings (labelmap POST mappings): one MappingOp per entry, [mapped, original...]; acknowledged once
+	// it is in the mutation log, from which a new process rebuilds the version's mapping
+	Maps    [][]uint64 `json:"maps,omitempty"`
+	Repo    int        `json:"repo,omitempty"`
+	V       int        `json:"v,omitempty"`
+	Parents []int      `json:"parents,omitempty"`
+	Branch  string     `json:"branch,omitempty"`
+	Name    string     `json:"name,omitempty"`
+	Key     string     `json:"key,omitempty"`
+	Val     string     `json:"val,omitempty"`
 }
 
 type cpoint struct {
@@ -113,6 +120,16 @@ type probe struct {
 type world struct {
 	names, branches, keys, vals *table
 	probes                      []probe
+	lmProbes                    []lmProbe
+}
+
+// the label mapping of one labelmap instance at one version: GET mapping of every supervoxel the
+// workload mentions (nolookup: the mapping alone, no label index needed) and GET mappings
+type lmProbe struct {
+	Repo int
+	Name string
+	V    int
+	SVs  []uint64
 }
 
 func newWorld(ops []wop) *world {
@@ -155,6 +172,42 @@ func newWorld(ops []wop) *world {
 	}
 	// every key is read at every version the workload writes its instance at (a key deleted in one
 	// version is read through its descendants, a key never written there through its ancestors)
+	lmV := map[inst][]int{}
+	lmSV := map[inst][]uint64{}
+	var lmOrder []inst
+	for _, o := range ops {
+		if o.Op != "mappings" {
+			continue
+		}
+		w.names.of(o.Name)
+		in := inst{o.Repo, o.Name}
+		if _, ok := lmV[in]; !ok {
+			lmOrder = append(lmOrder, in)
+		}
+		if !has(lmV[in], o.V) {
+			lmV[in] = append(lmV[in], o.V)
+		}
+		for _, m := range o.Maps {
+			for _, l := range m {
+				dup := false
+				for _, x := range lmSV[in] {
+					dup = dup || x == l
+				}
+				if !dup {
+					lmSV[in] = append(lmSV[in], l)
+				}
+			}
+		}
+	}
+	for _, in := range lmOrder {
+		sort.Slice(lmSV[in], func(a, b int) bool { return lmSV[in][a] < lmSV[in][b] })
+		// newest version first: a mapping rebuilt lazily must not depend on an ancestor having been asked before
+		vs := append([]int{}, lmV[in]...)
+		sort.Sort(sort.Reverse(sort.IntSlice(vs)))
+		for _, v := range vs {
+			w.lmProbes = append(w.lmProbes, lmProbe{in.repo, in.name, v, lmSV[in]})
+		}
+	}
 	done := map[inst]bool{}
 	for _, o := range ops {
 		if o.Op != "put" && o.Op != "del" {
@@ -250,6 +303,21 @@ func takeSnapshot(p *dvh.Proc, w *world) snapshot {
 		}
 		s.KV = append(s.KV, val)
 	}
+	for _, pr := range w.lmProbes {
+		a, b := 0, 0
+		if u, ok := v.vuuid[pr.V]; ok {
+			q, _ := json.Marshal(pr.SVs)
+			if st, body, _ := p.HTTP("GET", "/api/node/"+u+"/"+pr.Name+"/mapping?nolookup=true", q); st == 200 {
+				a = w.vals.of("mapping " + string(body))
+			}
+			if st, body, _ := p.Get("/api/node/" + u + "/" + pr.Name + "/mappings"); st == 200 {
+				lines := strings.Split(strings.TrimSpace(string(body)), "\n")
+				sort.Strings(lines)
+				b = w.vals.of("mappings " + strings.Join(lines, ";"))
+			}
+		}
+		s.KV = append(s.KV, a, b)
+	}
 	return s
 }
 
@@ -269,7 +337,26 @@ func execOp(p *dvh.Proc, o wop) (alive bool) {
 	case "newdata":
 		// the HTTP handler refuses new instances on a committed node: address the repo through its
 		// lowest open node (the generators only ask for an instance when the repo has one)
-		return post("/api/repo/"+v.openNode(o.Repo)+"/instance", map[string]string{"typename": "keyvalue", "dataname": o.Name})
+		typ := o.Type
+		if typ == "" {
+			typ = "keyvalue"
+		}
+		return post("/api/repo/"+v.openNode(o.Repo)+"/instance", map[string]string{"typename": typ, "dataname": o.Name})
+	case "mappings":
+		ops := &proto.MappingOps{}
+		for _, m := range o.Maps {
+			op := &proto.MappingOp{}
+			if len(m) > 0 {
+				op.Mapped, op.Original, op.Mutid = m[0], m[1:], uint64(len(ops.Mappings)+1)
+			}
+			ops.Mappings = append(ops.Mappings, op)
+		}
+		ser, err := pb.Marshal(ops)
+		if err != nil {
+			fatal("marshal mappings: %v", err)
+		}
+		_, _, a := p.Post("/api/node/"+v.vuuid[o.V]+"/"+o.Name+"/mappings", ser)
+		return a
 	case "commit":
 		return post("/api/node/"+v.vuuid[o.V]+"/commit", map[string]string{"note": "c"})
 	case "newversion":
@@ -326,8 +413,9 @@ type reference struct {
 	// which the process is in a state no store-call boundary shows
 	txnHook  bool
 	cumTxn   []int
-	interior []int // followed by another transaction of the same store call
-	loose    []int // outside any counted store call
+	roFinal  *snapshot // shown by a read-only server started after the whole workload and a clean stop
+	interior []int     // followed by another transaction of the same store call
+	loose    []int     // outside any counted store call
 }
 
 func freshDir() string {
@@ -374,12 +462,20 @@ func runReference(c jcrash, w *world) reference {
 	_, _, r.trace = p.Writes()
 	r.txnHook, _, r.interior, r.loose = p.Txns()
 	p.Quit()
+	// a read-only server on what the finished workload left (deleted repos and instances included)
+	r.roFinal = &snapshot{}
+	if pr, err := dvh.Start(dvh.Opts{Dir: dir, ReadOnly: true}); err == nil {
+		*r.roFinal = takeSnapshot(pr, w)
+		pr.Quit()
+	}
 	return r
 }
 
 // runCrash: returns the snapshot taken by a new process after the crash (OK=false: it did not start),
 // and the number of metadata writes that process issued while starting (recovery's own writes).
-func runCrash(c jcrash, w *world, pt cpoint) (snapshot, int, string) {
+// With ro, a READ-ONLY server is started first on what the crash left (it must come up and answer; it
+// cannot repair anything), stopped, and then the read-write one.
+func runCrash(c jcrash, w *world, pt cpoint, ro bool) (snapshot, int, string, *snapshot) {
 	dir := freshDir()
 	defer os.RemoveAll(dir)
 	spec := fmt.Sprintf("%s:%d:%s", pt.Class, pt.N, pt.Mode)
@@ -403,11 +499,11 @@ func runCrash(c jcrash, w *world, pt cpoint) (snapshot, int, string) {
 			m, d, _ := p.Writes()
 			tail := p.StderrTail()
 			p.Kill()
-			return snapshot{}, 0, fmt.Sprintf("crash point not reached: %d metadata and %d data writes at the end of the workload %s", m, d, tail)
+			return snapshot{}, 0, fmt.Sprintf("crash point not reached: %d metadata and %d data writes at the end of the workload %s", m, d, tail), nil
 		}
 	}
 	if p.Exit != 77 {
-		return snapshot{}, 0, fmt.Sprintf("child exit status %d instead of the injected crash: %s", p.Exit, p.Stderr)
+		return snapshot{}, 0, fmt.Sprintf("child exit status %d instead of the injected crash: %s", p.Exit, p.Stderr), nil
 	}
 	if pt.Second > 0 {
 		p2, err := dvh.Start(dvh.Opts{Dir: dir, Crash: fmt.Sprintf("meta:%d:after", pt.Second)})
@@ -416,9 +512,17 @@ func runCrash(c jcrash, w *world, pt cpoint) (snapshot, int, string) {
 			p2.Kill()
 		}
 	}
+	var roSnap *snapshot
+	if ro {
+		roSnap = &snapshot{}
+		if pr, err := dvh.Start(dvh.Opts{Dir: dir, ReadOnly: true}); err == nil {
+			*roSnap = takeSnapshot(pr, w)
+			pr.Quit()
+		}
+	}
 	p3, err := dvh.Start(dvh.Opts{Dir: dir})
 	if err != nil {
-		return snapshot{}, 0, "restart failed: " + err.Error()
+		return snapshot{}, 0, "restart failed: " + err.Error(), roSnap
 	}
 	s := takeSnapshot(p3, w)
 	rec := p3.Meta0
@@ -441,7 +545,7 @@ func runCrash(c jcrash, w *world, pt cpoint) (snapshot, int, string) {
 		}
 	}
 	p3.Quit()
-	return s, rec, ""
+	return s, rec, "", roSnap
 }
 
 // ---- the property's oracle on one crash point, evaluated by the driver itself ----
@@ -525,10 +629,33 @@ type retryStats struct{ reexecuted, flaky, confirmed int }
 
 // runCrashRobust executes a crash point; prev is the outcome of the preceding after-mode point of the
 // same class (nil if none), lastWrite the trace label of the write the process died after ("" if unknown).
-func runCrashRobust(c jcase2, w *world, ref reference, pt cpoint, j int, prev *snapshot, lastWrite string, st *retryStats) (snapshot, int, string, string) {
-	s, rec, note := runCrash(c.jcrash, w, pt)
+// roHolds: the read-only server came up and showed the state before or after the interrupted operation
+func roHolds(ref reference, j int, ro *snapshot) bool {
+	if ro == nil {
+		return true
+	}
+	if !ro.OK {
+		return false
+	}
+	for _, k := range []int{j - 1, j} {
+		if k >= 0 && k < len(ref.refs) && snapEqual(ref.refs[k], *ro) {
+			return true
+		}
+	}
+	return false
+}
+
+func sameRO(a, b *snapshot) bool {
+	if a == nil || b == nil {
+		return a == b
+	}
+	return snapEqual(*a, *b)
+}
+
+func runCrashRobust(c jcase2, w *world, ref reference, pt cpoint, j int, prev *snapshot, lastWrite string, st *retryStats, ro bool) (snapshot, int, string, string, *snapshot) {
+	s, rec, note, rs := runCrash(c.jcrash, w, pt, ro)
 	first := ""
-	failed := !pointHolds(ref, j, s)
+	failed := !pointHolds(ref, j, s) || !roHolds(ref, j, rs)
 	suspicious := failed
 	// a write that changes what a restart shows (ids record, repo blob) and yet left the outcome of the
 	// preceding point: either it really changes nothing, or the engine lost it
@@ -536,31 +663,34 @@ func runCrashRobust(c jcase2, w *world, ref reference, pt cpoint, j int, prev *s
 		suspicious = true
 	}
 	if !suspicious {
-		return s, rec, note, first
+		return s, rec, note, first, rs
 	}
 	st.reexecuted++
 	first = coqSnap(s)
+	if rs != nil {
+		first += " read-only " + coqSnap(*rs)
+	}
 	fails := 0
-	var alt snapshot
+	var alt, altRO = snapshot{}, (*snapshot)(nil)
 	var altRec int
 	var altNote string
 	haveAlt := false
 	for i := 0; i < 2; i++ {
-		s2, rec2, note2 := runCrash(c.jcrash, w, pt)
-		if sameOutcome(s, s2) {
+		s2, rec2, note2, rs2 := runCrash(c.jcrash, w, pt, ro)
+		if sameOutcome(s, s2) && sameRO(rs, rs2) {
 			fails++
 		} else if !haveAlt {
-			alt, altRec, altNote, haveAlt = s2, rec2, note2, true
+			alt, altRec, altNote, altRO, haveAlt = s2, rec2, note2, rs2, true
 		}
 	}
 	if fails == 2 {
 		if failed {
 			st.confirmed++
 		}
-		return s, rec, note, first
+		return s, rec, note, first, rs
 	}
 	st.flaky++
-	return alt, altRec, altNote, first
+	return alt, altRec, altNote, first, altRO
 }
 
 type jcase2 struct{ jcrash }
@@ -709,7 +839,10 @@ func runCrashCase(run *lib.Run, c jcrash, o lib.Opts) {
 		if pt.Mode == "after" && pt.N >= 1 {
 			prev = prevOutcome[pt.Class]
 		}
-		s, rec, note, first := runCrashRobust(jcase2{c}, w, ref, pt, opIndex(cumP, pt.N), prev, lastWrite, &st)
+		// the read-only start: after every metadata write and every transaction-level point; a sample of
+		// the data-write points in the quick tier (their metadata is that of an operation boundary)
+		ro := pt.Class != "data" || o.Thorough() || pt.N%4 == 0
+		s, rec, note, first, rs := runCrashRobust(jcase2{c}, w, ref, pt, opIndex(cumP, pt.N), prev, lastWrite, &st, ro)
 		if first != "" {
 			firsts = append(firsts, fmt.Sprintf("%s:%d:%s first outcome %s", pt.Class, pt.N, pt.Mode, first))
 		}
@@ -734,13 +867,26 @@ func runCrashCase(run *lib.Run, c jcrash, o lib.Opts) {
 		}
 		j := opIndex(cum, pt.N)
 		term := fmt.Sprintf("(%s, %d%%nat, %d%%nat, 0%%nat, %s)", lib.CoqBool(pt.Class == "meta"), eff, j, coqSnap(s))
+		roTerm := ""
+		if rs != nil {
+			// what the read-only server showed: a point of its own (repos before or after the operation,
+			// no ids are issued by it)
+			roTerm = fmt.Sprintf("(false, %d%%nat, %d%%nat, 0%%nat, %s)", eff, j, coqSnap(*rs))
+			run.Count("point:read-only-start")
+		}
 		if j >= 1 && j <= len(c.Ops) && c.Ops[j-1].Op == "deldata" {
 			// crash points inside an instance delete (its key-value deletions, and the instant before
 			// its blob save): a case of their own (known finding), so that they cannot mask anything
 			// in the main case
 			psDel = append(psDel, term)
+			if roTerm != "" {
+				psDel = append(psDel, roTerm)
+			}
 		} else {
 			ps = append(ps, term)
+			if roTerm != "" {
+				ps = append(ps, roTerm)
+			}
 		}
 		run.Count("point:" + pt.Class + "-" + pt.Mode)
 		// second crash: kill the recovering process after each of its own writes
@@ -750,7 +896,7 @@ func runCrashCase(run *lib.Run, c jcrash, o lib.Opts) {
 				lim = 0
 			}
 			for k := 1; k <= lim; k++ {
-				s2, _, note2, first2 := runCrashRobust(jcase2{c}, w, ref, cpoint{Class: "meta", N: pt.N, Mode: "after", Second: k}, j, nil, "", &st)
+				s2, _, note2, first2, _ := runCrashRobust(jcase2{c}, w, ref, cpoint{Class: "meta", N: pt.N, Mode: "after", Second: k}, j, nil, "", &st, false)
 				if first2 != "" {
 					firsts = append(firsts, fmt.Sprintf("meta:%d:after second %d first outcome %s", pt.N, k, first2))
 				}
@@ -762,6 +908,10 @@ func runCrashCase(run *lib.Run, c jcrash, o lib.Opts) {
 				second++
 			}
 		}
+	}
+	if ref.roFinal != nil && len(c.Points) == 0 {
+		ps = append(ps, fmt.Sprintf("(false, %d%%nat, %d%%nat, 0%%nat, %s)", ref.cumData[len(ref.cumData)-1], len(c.Ops), coqSnap(*ref.roFinal)))
+		run.Count("point:read-only-start")
 	}
 	if len(firsts) > 0 {
 		c.FirstOutcomes = firsts
@@ -880,9 +1030,39 @@ func versionedKeys() jcrash {
 	}}
 }
 
+// labelMappings: acknowledged raw mapping batches of a labelmap instance (kept in the mutation log only)
+// over an ancestry and a sibling branch -- re-mappings of one supervoxel in several versions, identity
+// records that take a supervoxel out of its body again -- each followed by operations whose writes are
+// crash points: whatever process comes up must map every supervoxel, at every version, as acknowledged.
+func labelMappings() jcrash {
+	mp := func(v int, maps ...[]uint64) wop {
+		return wop{Op: "mappings", Repo: 1, V: v, Name: "lm", Maps: maps}
+	}
+	return jcrash{Kind: "crash", Name: "W3-label-mappings", Ops: []wop{
+		{Op: "newrepo", Repo: 1},
+		{Op: "newdata", Repo: 1, Name: "lm", Type: "labelmap"},
+		mp(1, []uint64{1, 2}, []uint64{3, 4}),
+		{Op: "commit", Repo: 1, V: 1},
+		{Op: "newversion", Repo: 1, V: 1},
+		{Op: "branch", Repo: 1, V: 1, Branch: "b1"},
+		mp(2, []uint64{2, 2}, []uint64{1, 4}),
+		mp(3, []uint64{4, 4}, []uint64{2, 1}, []uint64{}),
+		{Op: "commit", Repo: 1, V: 2},
+		{Op: "newversion", Repo: 1, V: 2},
+		mp(4, []uint64{1, 2}, []uint64{4, 4}),
+		mp(4, []uint64{7, 2}),
+		{Op: "commit", Repo: 1, V: 4},
+		{Op: "newversion", Repo: 1, V: 4},
+		mp(5, []uint64{2, 2}, []uint64{3, 3}),
+		{Op: "commit", Repo: 1, V: 3},
+		{Op: "newrepo", Repo: 2},
+	}}
+}
+
 func genCrash(run *lib.Run, o lib.Opts, rng *lib.Rand) {
 	runCrashCase(run, fixedWorkload(), o)
 	runCrashCase(run, versionedKeys(), o)
+	runCrashCase(run, labelMappings(), o)
 	n := 1
 	if o.Thorough() {
 		n = 8
@@ -907,7 +1087,8 @@ func randomWorkload(rng *lib.Rand, idx int) jcrash {
 	}
 	defer p.Quit()
 	nextRepo, branchN, valN := 1, 0, 0
-	data := map[int][]string{} // repo ordinal -> instance names
+	data := map[int][]string{} // repo ordinal -> keyvalue instance names
+	lms := map[int][]string{}  // repo ordinal -> labelmap instance names
 	do := func(o wop) {
 		c.Ops = append(c.Ops, o)
 		if !execOp(p, o) {
@@ -941,7 +1122,24 @@ func randomWorkload(rng *lib.Rand, idx int) jcrash {
 		}
 		sort.Slice(nodes, func(a, b int) bool { return nodes[a].v < nodes[b].v })
 		n := nodes[rng.Intn(len(nodes))]
-		switch rng.Intn(14) {
+		switch rng.Intn(16) {
+		case 14, 15:
+			// a raw mapping batch (re-mappings, identity records, the empty record) at any open version
+			if len(lms[n.repo]) > 0 && !n.locked {
+				var maps [][]uint64
+				for j := 0; j < 1+rng.Intn(3); j++ {
+					sv := uint64(1 + rng.Intn(4))
+					switch rng.Intn(4) {
+					case 0:
+						maps = append(maps, []uint64{sv, sv})
+					case 1:
+						maps = append(maps, []uint64{})
+					default:
+						maps = append(maps, []uint64{uint64(1 + rng.Intn(6)), sv})
+					}
+				}
+				do(wop{Op: "mappings", Repo: n.repo, V: n.v, Name: lms[n.repo][rng.Intn(len(lms[n.repo]))], Maps: maps})
+			}
 		case 12, 13:
 			// delete a key (written before or not, here or in an ancestor or nowhere)
 			if len(data[n.repo]) > 0 && !n.locked {
